@@ -17,6 +17,10 @@ structure PState where
   tunnel : Bool := false
   /-- origin versions ever served per resource with their sizes: what a body may legitimately be -/
   served : List (Nat × Nat × Nat) := []
+  /-- resources whose next upstream exchange finds the entry deleted in mid-flight (harness op `arm`) -/
+  armed : List Nat := []
+  /-- (resource, query) whose stored entry was last renewed by a 304 -/
+  renewed : List (Nat × String) := []
 
 def nat (x : String) : Nat := x.toNat?.getD 0
 def int (x : String) : Int := x.toInt?.getD 0
@@ -57,7 +61,8 @@ def parseORes (fields : String) : ORes :=
 /-- the extra end-to-end / hop-by-hop headers of the harness origin, by id. -/
 def hdrSet (n : Nat) : Headers.Hdr :=
   let mk (l : List (String × String)) : Headers.Hdr := l.map (fun p => (p.1.toList, p.2.toList))
-  match n % 6 with
+  match n % 7 with
+  | 6 => mk [("Connection", "keep-alive"), ("Connection", "X-Hop3"), ("X-Hop3", "t"), ("X-Keep", "3")]
   | 1 => mk [("Set-Cookie", "a=1"), ("Set-Cookie", "b=2"), ("Vary", "Accept"), ("Vary", "Accept-Encoding")]
   | 2 => mk [("Connection", "close, X-Hop"), ("X-Hop", "secret"), ("X-Keep", "1"), ("Keep-Alive", "timeout=5")]
   | 3 => mk [("Link", "<a>; rel=next"), ("Link", "<b>; rel=prev"), ("X-Lower-Case", "v"), ("Warning", "199 - w1"), ("Warning", "199 - w2")]
@@ -66,7 +71,7 @@ def hdrSet (n : Nat) : Headers.Hdr :=
   | _ => []
 
 def observedNames : List String :=
-  ["Set-Cookie", "Vary", "Link", "Warning", "X-Keep", "X-Hop", "X-Hop2", "X-Lower-Case", "Keep-Alive", "Proxy-Authenticate", "Trailer",
+  ["Set-Cookie", "Vary", "Link", "Warning", "X-Keep", "X-Hop", "X-Hop2", "X-Hop3", "X-Lower-Case", "Keep-Alive", "Proxy-Authenticate", "Trailer",
    "Upgrade", "Content-Type", "Location", "Via"]
 
 def hopList : List Str := Rv.Generated.hopHeaders.map String.toList
@@ -217,11 +222,30 @@ def step (ps : PState) (fs : List String) (obs : String) : PState × String × S
     let r : Req := { res := res, method := method, query := String.ofList (unhexS q), range := if rng = "-" then none else some (unhexS rng),
                      ifRangeEtag := ifrE, ifRangeDate := ifrD, hasBody := body ≠ "-" }
     let entryBefore := lookup ps.cache res r.query
-    let (resp, cache', log) := handle ps.cfg tf ps.cache now r
-    let reqX := if hs = "1" then strHex "c1" else if hs = "2" then strHex "c2,c3" else "-"
+    -- an armed resource: the environment deletes the entry of exactly this request's key while the
+    -- origin answers (handleEnv with the mid-flight cache); the arm is spent by the first upstream contact
+    let isArmed := ps.armed.contains res
+    let cMid := if isArmed && method = "GET" then erase ps.cache res r.query else ps.cache
+    let (resp, cache', log) := handleEnv ps.cfg tf ps.cache cMid now r
+    let armed' := if isArmed && !log.isEmpty then ps.armed.filter (· ≠ res) else ps.armed
+    let reqX := if hs = "1" then strHex "c1" else if hs = "2" then strHex "c2,c3" else if hs = "3" then strHex "c4" else "-"
     let reqBody := if body = "-" then 0 else (unhexS body).length
     let m := (render ps.tunnel res method resp log reqX reqBody).replace "ifrange=IFR" s!"ifrange={ifrSym}"
     let v0 := verdict { ps with now := now } tf r entryBefore obs ps.served
+    -- C03 / C06: a plain GET of an entry that is fresh (with margin) needs no origin contact; after a 304 the
+    -- renewed lifetime counts from the revalidation; a HIT serves the stored version, never a replaced one
+    let upI := between obs "up=[" "]"
+    let v0 :=
+      if v0 ≠ "ok" then v0
+      else match entryBefore with
+        | some en =>
+          if method = "GET" && rng = "-" && !isArmed && upI ≠ "" && decide (now + 700 < en.expires) then
+            (if ps.renewed.contains (res, r.query) then "bad:lifetime-not-renewed-by-the-default-after-304"
+             else "bad:origin-contacted-although-stored-entry-is-fresh")
+          else if between obs "xc=" " " = "HIT" && method = "GET" && (between obs "body=" " ").startsWith "v" && ((between obs "body=" " ").splitOn ":").head? ≠ some s!"v{en.o.ver}" then
+            "bad:replaced-body-served-again"
+          else "ok"
+        | none => "ok"
     -- C08 / C10: the end-to-end header fields delivered are exactly those of the origin answer this
     -- response was built from: nothing lost, nothing altered, nothing left over from an earlier exchange
     let hImpl := (between (obs ++ " ") " h=" " ").splitOn ","
@@ -233,14 +257,17 @@ def step (ps : PState) (fs : List String) (obs : String) : PState × String × S
       else if hImpl.any (fun x => x.startsWith "X-Hop=") && hModel.any (fun x => x.startsWith "X-Hop=") then
         -- the faithful model (net/http drops "Connection: close, …" before the proxy sees it) predicts the same
         "bad:connection-nominated-header-forwarded-when-connection-also-says-close"
-      else if hImpl.any (fun x => (x.startsWith "X-Hop=" || x.startsWith "X-Hop2=") && !hModel.contains x) then "bad:connection-nominated-header-forwarded"
+      else if hImpl.any (fun x => (x.startsWith "X-Hop=" || x.startsWith "X-Hop2=" || x.startsWith "X-Hop3=") && !hModel.contains x) then "bad:connection-nominated-header-forwarded"
       else if hImpl.any (fun x => x ≠ "" && !hModel.contains x && (hModel.any (fun y => (y.splitOn "=").head? = (x.splitOn "=").head?))) then "bad:end-to-end-header-altered"
       else if hImpl.any (fun x => x ≠ "" && !hModel.contains x) then "bad:header-not-sent-by-the-origin-for-this-exchange"
       else if hModel.any (fun y => y ≠ "" && !hImpl.contains y) then "bad:end-to-end-header-lost"
       else if (stI = "200") && between obs "cr=" " " ≠ "-" then "bad:content-range-on-a-200"
       else if stI ≠ between m "st=" " " && (between m "st=" " " ≠ "416") && (match tf res with | some o => toString o.status = between m "st=" " " | none => false) then "bad:origin-status-not-relayed"
       else "ok"
-    ({ ps with cache := cache', now := now }, m, v1)
+    let renewed' := if resp.label = .revalidated then (res, r.query) :: ps.renewed.filter (· ≠ (res, r.query))
+      else if log.isEmpty then ps.renewed else ps.renewed.filter (· ≠ (res, r.query))
+    ({ ps with cache := cache', now := now, armed := armed', renewed := renewed' }, m, v1)
+  | ["px", "arm", id] => ({ ps with armed := nat id :: ps.armed.filter (· ≠ nat id) }, "armed", "ok")
   | ["px", "shift", ms] => ({ ps with now := ps.now + int ms }, "shifted", "ok")
   | ["px", "tunnelclose"] => (ps, "closed", "ok")
   | ["px", "snap"] =>
